@@ -174,5 +174,18 @@ Definition run_scope_e2e_spec (l : list Z) : list Z :=
   if program_ok p then
     let ts := spec_resolve p in
     1 :: len ts :: map zn (canon target_eqb ts)
-      ++ map (fun t => match t with TGlobal _ => 1 | TBind _ _ => 0 end) (reps_aux target_eqb [] ts)
+      ++ map (fun t => match t with TGlobal _ => 1 | TBind _ _ _ => 0 end) (reps_aux target_eqb [] ts)
   else [0].
+
+(* ---- the label machine of the proof, end to end (programs of the proved fragment only) ------ *)
+From Verif Require Import JsScope.Abs.
+
+Definition run_scope_e2e_am (l : list Z) : list Z :=
+  match arun init_astate (program_events (prog_of l)) with
+  | ARun a =>
+      let ls := rev (alog a) in
+      1 :: len ls :: map zn (canon label_eqb ls)
+        ++ map (fun t => match t with LPend _ _ => 1 | LDecl _ _ => 0 end) (reps_aux label_eqb [] ls)
+  | ARej => [0]
+  | AStuck => [-3]
+  end.
